@@ -5,13 +5,14 @@ From PVGen Require PdPaths GenericTables.
 Import ListNotations.
 Local Open Scope string_scope.
 
-(* the document-typed paths of the live schema: every generated row is a row of FULL_TABLE (the hand-written rows of the 18 known
-   classes + a walking row per new class), every hand-written row is still generated unchanged (no known class lost or changed a
-   document-typed path or its accessor override), and a NEW class does not override the accessor *)
+(* the document-typed paths of the live schema: every generated row is described by a row of FULL_TABLE (the hand-written rows of
+   the 18 known classes + a walking row per new class), every hand-written row still describes a generated row (no known class lost
+   or changed a document-capable path, or its accessor override where it has such paths), and a NEW class with document-capable paths
+   does not override the accessor *)
 Lemma pd_table_is_spec :
-  forallb (fun row => existsb (row_eqb row) (map to_generated FULL_TABLE)) PdPaths.PD_TABLE = true /\
-  forallb (fun r => existsb (row_eqb (to_generated r)) PdPaths.PD_TABLE) SPEC_TABLE = true /\
-  forallb (fun row => negb (fst (snd row))) EXTRA_ROWS = true.
+  forallb (fun row => existsb (fun r => row_compat r row) FULL_TABLE) PdPaths.PD_TABLE = true /\
+  forallb (fun r => existsb (row_compat r) PdPaths.PD_TABLE) SPEC_TABLE = true /\
+  forallb (fun row => negb (fst (snd row)) || match snd (snd row) with [] => true | _ => false end) EXTRA_ROWS = true.
 Proof. split; [|split]; vm_compute; reflexivity. Qed.
 
 Lemma spec_table_covered : forallb covered FULL_TABLE = true.
@@ -19,21 +20,23 @@ Proof. vm_compute. reflexivity. Qed.
 
 Theorem typed_paths :
   forall t ov paths, In (t, (ov, paths)) PdPaths.PD_TABLE ->
-  exists r, In r FULL_TABLE /\ c_type r = t /\ c_paths r = paths /\ ov = is_override (c_acc r) /\
+  exists r, In r FULL_TABLE /\ c_type r = t /\ c_paths r = paths /\ (ov = is_override (c_acc r) \/ paths = []) /\
             forallb (path_covered r) paths = true.
 Proof.
   intros t ov paths H. destruct pd_table_is_spec as [F _]. rewrite forallb_forall in F. specialize (F _ H).
-  apply existsb_exists in F. destruct F as (g & Hg & E). apply row_eqb_eq in E. subst g.
-  apply in_map_iff in Hg. destruct Hg as (r & E & Hr).
-  exists r. unfold to_generated in E. inversion E; subst. repeat split; auto.
-  pose proof spec_table_covered as C. rewrite forallb_forall in C. apply (C r Hr).
+  apply existsb_exists in F. destruct F as (r & Hr & E). apply row_compat_spec in E. destruct E as (E1 & E2 & E3).
+  exists r. split; [exact Hr|]. split; [exact E1|]. split; [exact E2|]. split; [exact E3|].
+  pose proof spec_table_covered as C. rewrite forallb_forall in C. specialize (C r Hr). unfold covered in C. rewrite E2 in C. exact C.
 Qed.
 
-(* the known classes are all still there, with the paths and the override flag this development was written against *)
-Theorem known_rows_unchanged : forall r, In r SPEC_TABLE -> In (to_generated r) PdPaths.PD_TABLE.
+(* the known classes are all still there, with the paths (and, where there are any, the override flag) this development was
+   written against *)
+Theorem known_rows_unchanged : forall r, In r SPEC_TABLE ->
+  exists ov, In (c_type r, (ov, c_paths r)) PdPaths.PD_TABLE /\ (ov = is_override (c_acc r) \/ c_paths r = []).
 Proof.
   intros r Hr. destruct pd_table_is_spec as (_ & F & _). rewrite forallb_forall in F. specialize (F _ Hr).
-  apply existsb_exists in F. destruct F as (g & Hg & E). apply row_eqb_eq in E. subst g. exact Hg.
+  apply existsb_exists in F. destruct F as ([t [ov paths]] & Hg & E). apply row_compat_spec in E. destruct E as (E1 & E2 & E3).
+  exists ov. subst t paths. split; [exact Hg | exact E3].
 Qed.
 
 (* generic.AuxType: the alternatives and their order (the guards are pinned by Typed/AuxCheck.v for C18);
